@@ -12,7 +12,8 @@ EXPLANATION = (
     "(wasted, skip, idle listings, clear_wasted) do not depend on when the periodic collection ran; (R03.5) fetched "
     "tracks are never destroyed on a normal path (linear use) and are moved/returned; (R03.6) optimize() calls "
     "update_history exactly once per detection and track_length += 1 exactly once; (R03.7) only ids whose status is "
-    "Ok(Wasted) are fetched by the collection and by wasted().")
+    "Ok(Wasted) are fetched by the collection and by wasted()."
+    ' (R03.12) a batch keeps one entry per scene id and the per-scene epoch map only grows (no removal / eviction); R03.2 also judges the overflow-safe spelling `current.saturating_sub(last_updated) > max_idle` (accepted) against `saturating_sub(last_updated + 1) >= max_idle` (differs for max_idle = 0).')
 NOT_DECIDED = ["whole-history conservation as an input-output statement", "user code mutating the stores directly",
                "concrete epochs/lengths for concrete histories"]
 ASSUMPTIONS = ["no code outside the analysed crate mutates the tracker's stores", "panics out of scope",
